@@ -117,7 +117,20 @@ var inflightFile *os.File
 // Inflight records, in a per-worker scratch file named by the parent, the input the worker is about to run, so
 // that a fatal death (out of memory, stack overflow) or a stall can be attributed to that exact input rather than
 // to the whole case. One pwrite per input; the page cache survives the death of the process.
-func Inflight(label string, b []byte) {
+func Inflight(label string, b []byte) { InflightAt(label, 0, b) }
+
+// ResumeSub tells a worker at which sub-index of case idx to resume after the previous worker process died on
+// (or stalled in) that case: the sub-index after the fatal input. 0 when the case starts afresh.
+func ResumeSub(idx int) int {
+	var i, sub int
+	if n, _ := fmt.Sscanf(os.Getenv("VERIF_RESUME"), "%d:%d", &i, &sub); n == 2 && i == idx {
+		return sub
+	}
+	return 0
+}
+
+// InflightAt is Inflight with the position of the input inside its case.
+func InflightAt(label string, sub int, b []byte) {
 	if inflightFile == nil {
 		p := os.Getenv("VERIF_INFLIGHT")
 		if p == "" {
@@ -132,24 +145,26 @@ func Inflight(label string, b []byte) {
 	if len(b) > 1<<16 {
 		b = b[:1<<16]
 	}
-	buf := make([]byte, 0, 8+len(label)+len(b))
+	buf := make([]byte, 0, 12+len(label)+len(b))
 	buf = append(buf, byte(len(label)>>8), byte(len(label)), byte(len(b)>>24), byte(len(b)>>16), byte(len(b)>>8), byte(len(b)))
+	buf = append(buf, byte(sub>>24), byte(sub>>16), byte(sub>>8), byte(sub))
 	buf = append(buf, label...)
 	buf = append(buf, b...)
 	inflightFile.WriteAt(buf, 0)
 }
 
-func readInflight(path string) (label string, data []byte) {
+func readInflight(path string) (label string, sub int, data []byte) {
 	b, err := os.ReadFile(path)
-	if err != nil || len(b) < 6 {
-		return "", nil
+	if err != nil || len(b) < 10 {
+		return "", -1, nil
 	}
 	ll := int(b[0])<<8 | int(b[1])
 	dl := int(b[2])<<24 | int(b[3])<<16 | int(b[4])<<8 | int(b[5])
-	if 6+ll+dl > len(b) {
-		return "", nil
+	sub = int(b[6])<<24 | int(b[7])<<16 | int(b[8])<<8 | int(b[9])
+	if 10+ll+dl > len(b) {
+		return "", -1, nil
 	}
-	return string(b[6 : 6+ll]), b[6+ll : 6+ll+dl]
+	return string(b[10 : 10+ll]), sub, b[10+ll : 10+ll+dl]
 }
 
 // GuardSpec configures a guarded run.
@@ -160,6 +175,9 @@ type GuardSpec struct {
 	MemKB    int                       // RLIMIT_AS per worker in KiB (default 6 GiB)
 	Stall    time.Duration             // a case taking longer is a stall (default 30 s)
 	Describe func(idx int) interface{} // renders a case for the replay file when the worker died on it
+	// MaxDeathsPerKey, when positive: after that many fatal deaths with one violation key in a shard, a further
+	// death with that key abandons the rest of its case instead of resuming inside it (reported as capped).
+	MaxDeathsPerKey int
 }
 
 // RunGuarded runs all cases of the worker across shards and merges the reports into c.
@@ -187,6 +205,8 @@ func (c *Ctx) RunGuarded(spec GuardSpec) int64 {
 			defer wg.Done()
 			from := 0
 			restarts := 0
+			resume := ""
+			deaths := map[string]int{}
 			for {
 				if c.Expired() {
 					c.Capped(fmt.Sprintf("guarded worker %s shard %d stopped by budget at index %d", spec.Worker, sh, from))
@@ -199,7 +219,7 @@ func (c *Ctx) RunGuarded(spec GuardSpec) int64 {
 				cmd := exec.Command("bash", "-c", cmdline)
 				inflightPath := fmt.Sprintf("%s/.build/run/inflight.%d.%s.%d", Root, os.Getpid(), spec.Worker, sh)
 				os.Remove(inflightPath)
-				cmd.Env = append(os.Environ(), "GOTRACEBACK=single", "GOMAXPROCS=2", "VERIF_INFLIGHT="+inflightPath)
+				cmd.Env = append(os.Environ(), "GOTRACEBACK=single", "GOMAXPROCS=2", "VERIF_INFLIGHT="+inflightPath, "VERIF_RESUME="+resume)
 				out, _ := cmd.StdoutPipe()
 				var stderr strings.Builder
 				cmd.Stderr = &limitedWriter{b: &stderr, max: 6000}
@@ -263,7 +283,7 @@ func (c *Ctx) RunGuarded(spec GuardSpec) int64 {
 					}
 				}
 				cmd.Wait()
-				inLabel, inData := readInflight(inflightPath)
+				inLabel, inSub, inData := readInflight(inflightPath)
 				os.Remove(inflightPath)
 				if ended {
 					return
@@ -283,13 +303,24 @@ func (c *Ctx) RunGuarded(spec GuardSpec) int64 {
 				key := fmt.Sprintf("%s:%s:%s", spec.Worker, kind, fatalClass(stderr.String()))
 				if inLabel != "" {
 					key += ":" + inLabel
+					if site := fatalSite(stderr.String()); site != "" {
+						key += ":" + site
+					}
 					cas = map[string]interface{}{"worker": spec.Worker, "index": inflight, "args": spec.Args, "input_label": inLabel, "input_hex": fmt.Sprintf("%x", inData)}
 				}
 				c.Violate("guard", key, map[string]interface{}{"stderr": stderr.String(), "stalled": stalled}, cas)
-				from = inflight + 1
+				from, resume = inflight+1, ""
+				deaths[key]++
+				if deaths[key] > spec.MaxDeathsPerKey && spec.MaxDeathsPerKey > 0 {
+					// every further instance of this failure costs a process: leave the rest of this case
+					c.Capped(fmt.Sprintf("guarded worker %s: more than %d fatal deaths keyed %s in one shard; rest of case %d skipped", spec.Worker, spec.MaxDeathsPerKey, key, inflight))
+				} else if inLabel != "" && inSub >= 0 {
+					// the worker records inputs inside the case: resume the same case after the fatal input
+					from, resume = inflight, fmt.Sprintf("%d:%d", inflight, inSub+1)
+				}
 				restarts++
-				if restarts > 200 {
-					c.Capped(fmt.Sprintf("guarded worker %s shard %d restarted more than 200 times", spec.Worker, sh))
+				if restarts > 1500 {
+					c.Capped(fmt.Sprintf("guarded worker %s shard %d restarted more than 1500 times", spec.Worker, sh))
 					return
 				}
 			}
@@ -325,4 +356,28 @@ func fatalClass(stderr string) string {
 		return "fatal-error"
 	}
 	return "killed"
+}
+
+// fatalSite extracts, from the traceback of a fatal error, the innermost function that is neither runtime nor
+// reflect: where the fatal allocation / recursion was asked for.
+func fatalSite(stderr string) string {
+	i := strings.Index(stderr, "[running]:")
+	if i < 0 {
+		return ""
+	}
+	for _, l := range strings.Split(stderr[i:], "\n")[1:] {
+		if l == "" || strings.HasPrefix(l, "\t") || strings.HasPrefix(l, "runtime.") || strings.HasPrefix(l, "reflect.") {
+			continue
+		}
+		if strings.HasPrefix(l, "goroutine ") {
+			break
+		}
+		fn := l
+		if j := strings.LastIndex(fn, "("); j > 0 {
+			fn = fn[:j]
+		}
+		fn = strings.TrimPrefix(fn, "github.com/jcmturner/gokrb5/v8/")
+		return strings.TrimPrefix(fn, "github.com/jcmturner/")
+	}
+	return ""
 }
